@@ -5,6 +5,7 @@ package main
 import (
 	"fmt"
 	"go/types"
+	"os"
 	"strings"
 
 	"golang.org/x/tools/go/ssa"
@@ -138,7 +139,7 @@ func runC01(c *Ctx) {
 			switch {
 			case ro == nil || !ro.Full || s.Env[ro.Coll] == nil || s.Env[ro.Coll].Aux != "lookupTables":
 				bad = "the loop is not a complete range over the engine's table list"
-			case s.RC[site.Block()] != body:
+			case s.RCAt(site) != body:
 				bad = "TryAdd is not offered to every table reached"
 			case len(ce.Args) < 3 || ce.Args[1] != ps[1] || ce.Args[2] != ps[2]:
 				bad = "TryAdd is not called with the rule and its storage index"
@@ -215,7 +216,7 @@ func runC01(c *Ctx) {
 				}
 				c.Check(okF, "C01.R3", "ShortcutsTable.MatchAll: probes a field of the request", site.Pos(), "field "+str.Aux, "the probed string is not a field of the request: "+u.Show(str))
 				// unconditional in the window loop, and the looked-up key is the hash
-				c.Check(s.RC[site.Block()] == u.bdd.And(s.RC[l.Header], ct.Cont), "C01.R3", "ShortcutsTable.MatchAll: every window is looked up", site.Pos(), "hash computed in every iteration", "the window hash is conditional")
+				c.Check(s.RCAt(site) == u.bdd.And(s.RC[l.Header], ct.Cont), "C01.R3", "ShortcutsTable.MatchAll: every window is looked up", site.Pos(), "hash computed in every iteration", "the window hash is conditional")
 			}
 			// no early exit of the window loop
 		}
@@ -420,7 +421,10 @@ func runC01(c *Ctx) {
 					continue
 				}
 				ro := rangedOver(l)
-				okFull := ro != nil && ro.Full && s.RC[site.Block()] == u.bdd.And(s.RC[l.Header], contCond(u, s, l))
+				okFull := ro != nil && ro.Full && s.RCAt(site) == u.bdd.And(s.RC[l.Header], contCond(u, s, l))
+				if os.Getenv("UFCHECK_DEBUG_C01") != "" {
+					fmt.Println("R4 probe: ro", ro != nil, ro != nil && ro.Full, "rc", u.ShowBool(s.RCAt(site)), "want", u.ShowBool(u.bdd.And(s.RC[l.Header], contCond(u, s, l))), "exh", onlyExhaustionExit(l))
+				}
 				// exits of the probe loop: only exhaustion
 				okFull = okFull && onlyExhaustionExit(l)
 				var coll *E
@@ -518,6 +522,7 @@ func runC01(c *Ctx) {
 			g.Inline = func(_, callee *ssa.Function, depth int) bool {
 				return depth <= 2 && c.P.IsLibFunc(callee) && callee.Pkg != nil && callee.Pkg.Pkg.Path() == pkgPath("lookup")
 			}
+			g.Search = true // search loops and slices.Contains/ContainsFunc read as exists(list, predicate)
 			s := g.Eval(ta)
 			u := g.U
 			c.Fn(sortedKeys(g.Funcs)...)
@@ -532,12 +537,28 @@ func runC01(c *Ctx) {
 				}
 				// a rejection must be justified by an element with the same rule text (or the same pointer)
 				ok := false
+				isText := func(e *E) bool { return e.Op == "field" && e.Aux == "RuleText" }
+				sameRule := func(at *E) bool {
+					if at.Op != "eq" {
+						return false
+					}
+					x, y := at.Args[0], at.Args[1]
+					return (isText(x) && isText(y) && (x.Args[0] == f || y.Args[0] == f)) || x == f || y == f
+				}
 				for _, at := range u.AtomsOf(r.Cond) {
-					if at.Op == "eq" && u.bdd.Implies(r.Cond, u.Atom(at)) {
-						x, y := at.Args[0], at.Args[1]
-						isText := func(e *E) bool { return e.Op == "field" && e.Aux == "RuleText" }
-						if (isText(x) && isText(y) && (x.Args[0] == f || y.Args[0] == f)) || x == f || y == f {
-							ok = true
+					if !u.bdd.Implies(r.Cond, u.Atom(at)) {
+						continue
+					}
+					if sameRule(at) {
+						ok = true
+					}
+					// exists(stored list, P): every way to satisfy P includes the equality
+					if at.Op == "exists" && len(at.Args) == 2 && at.Args[1].Op == "bool" {
+						pred := at.Args[1].B
+						for _, pa := range u.AtomsOf(pred) {
+							if sameRule(pa) && u.bdd.Implies(pred, u.Atom(pa)) {
+								ok = true
+							}
 						}
 					}
 				}
